@@ -113,11 +113,21 @@ func (d *Downstream) RoundTrip(r *http.Request) (*http.Response, error) {
 	sr := SubReq{Path: r.URL.Path, Query: r.Form.Get("query"), Form: r.Form}
 	sr.Tenant = r.Header.Get(user.OrgIDHeaderName)
 	var err error
-	if sr.Start, err = ParseSecMs(r.Form.Get("start")); err != nil {
-		return nil, fmt.Errorf("downstream: start: %w", err)
-	}
-	if sr.End, err = ParseSecMs(r.Form.Get("end")); err != nil {
-		return nil, fmt.Errorf("downstream: end: %w", err)
+	if strings.HasSuffix(sr.Path, "/api/v1/query") { // instant query: start = end = time (-1: no time given)
+		sr.Start, sr.End = -1, -1
+		if tm := r.Form.Get("time"); tm != "" {
+			if sr.Start, err = ParseSecMs(tm); err != nil {
+				return nil, fmt.Errorf("downstream: time: %w", err)
+			}
+			sr.End = sr.Start
+		}
+	} else {
+		if sr.Start, err = ParseSecMs(r.Form.Get("start")); err != nil {
+			return nil, fmt.Errorf("downstream: start: %w", err)
+		}
+		if sr.End, err = ParseSecMs(r.Form.Get("end")); err != nil {
+			return nil, fmt.Errorf("downstream: end: %w", err)
+		}
 	}
 	if st := r.Form.Get("step"); st != "" {
 		if sr.Step, err = ParseSecMs(st); err != nil {
